@@ -941,14 +941,39 @@ def rule_record_skip_siblings(ctx, funcs=("VSread", "VSwrite")):
     for fn, k, f, line, ptr, sz in sites:
         by.setdefault(sz, []).append((fn, k, f, line, ptr))
     major = max(by.items(), key=lambda kv: len(kv[1]))[0] if by else None
+    # a sibling that re-positions by the full record count (`ptr += nelt * size`) instead of (count - 1): the same step with the
+    # wrong multiplier
+    cntvars = set()
+    for fn in funcs:
+        f = prog.func(fn)
+        if f is None:
+            continue
+        for _b, _i, s, x in f.nodes(True):
+            if x[0] == "asg" and x[1] == "+=" and kind(strip(x[3])) == "bin" and strip(x[3])[1] == "*":
+                a = strip(x[3])
+                for cnt, sz in ((strip(a[2]), a[3]), (strip(a[3]), a[2])):
+                    if kind(cnt) == "bin" and cnt[1] == "-" and is_int(cnt[3], 1) and kind(strip(cnt[2])) == "var":
+                        cntvars.add(strip(cnt[2])[1])
+    extra = 0
+    for fn in funcs:
+        f = prog.func(fn)
+        if f is None:
+            continue
+        for _b, _i, s, x in sorted(f.nodes(True), key=lambda t: t[2].get("l", 0)):
+            if x[0] == "asg" and x[1] == "+=" and kind(strip(x[2])) == "var" and kind(strip(x[3])) == "bin" and strip(x[3])[1] == "*":
+                a = strip(x[3])
+                for cnt, sz in ((strip(a[2]), a[3]), (strip(a[3]), a[2])):
+                    if kind(cnt) == "var" and cnt[1] in cntvars and _size_name(f, sz) == major and any(p_ == strip(x[2])[1] for _fn, _k, _f, _l, p_ in by.get(major, [])):
+                        extra += 1
+                        ctx.violated("SKIPSIB", "SKIPSIB:%s:full#%d" % (fn, extra), f.where(s.get("l", f.line)), "`%s` is re-positioned by `%s` x `%s`; its sibling copies skip (%s - 1) x `%s`: the next component starts one whole field too far" % (strip(x[2])[1], cnt[1], major, cnt[1], major))
     for fn, k, f, line, ptr, sz in sites:
         key = "SKIPSIB:%s#%d" % (fn, k)
         if sz == major:
             ctx.holds("SKIPSIB", key, f.where(line), "`%s` skips (records - 1) x `%s` like the other copies" % (ptr, sz), nontrivial=True)
         else:
             ctx.violated("SKIPSIB", key, f.where(line), "`%s` skips (records - 1) x `%s`; the %d sibling copies of this re-positioning skip by `%s`" % (ptr, sz, len(by[major]), major))
-    ctx.floor("SKIPSIB", 4, len(sites), "(field-major re-positioning steps in VSread/VSwrite)")
-    return len(sites)
+    ctx.floor("SKIPSIB", 4, len(sites) + extra, "(field-major re-positioning steps in VSread/VSwrite)")
+    return len(sites) + extra
 
 
 def rule_cursor_advances_with_use(ctx):
@@ -1816,4 +1841,39 @@ def rule_carried_index_reset(ctx):
             else:
                 ctx.violated("IDXRESET", key, f.where(line), "the inner scan resumes at `%s` and nothing in the walk over the blocks resets it afterwards: every block after the first is scanned from where the previous one ended" % v)
     ctx.floor("IDXRESET", 4, n, "(resumed scans of a DD block inside a walk over the blocks)")
+    return n
+
+
+def rule_convert_stride_whole_field(ctx):
+    """FIELDSTRIDE (C07): VSread/VSwrite convert one component of a field for all records with one strided DFKconvert call; the
+    two strides are the distances between consecutive *records* on either side - the size of the whole field (or record) -
+    while the pointers step from component to component by `size / order`.  No stride handed to DFKconvert in these routines
+    is itself divided by `order`: a component-sized stride packs the components of a multi-order field on top of each other
+    in field-major storage."""
+    prog = ctx.prog
+    n = 0
+    for name in ("VSread", "VSwrite"):
+        f = prog.func(name)
+        if f is None:
+            continue
+        k = 0
+        for _b, _i, s, c in f.calls():
+            if c[1] != "DFKconvert" or len(c[3]) < 7:
+                continue
+            if is_int(c[3][5], 0) and is_int(c[3][6], 0):
+                continue
+            k += 1
+            n += 1
+            key = "FIELDSTRIDE:%s#%d" % (name, k)
+            line = s.get("l", f.line)
+            bad = None
+            for a in (c[3][5], c[3][6]):
+                for x in walk(a, True):
+                    if x[0] == "bin" and x[1] == "/" and kind(strip(x[3])) == "var" and strip(x[3])[1] == "order":
+                        bad = render(strip(a))
+            if bad:
+                ctx.violated("FIELDSTRIDE", key, f.where(line), "the stride `%s` handed to DFKconvert is a component size (divided by order): consecutive records of the field are laid on top of each other" % bad[:30])
+            else:
+                ctx.holds("FIELDSTRIDE", key, f.where(line), "both strides (`%s`, `%s`) are whole-field or whole-record sizes" % (render(strip(c[3][5]))[:20], render(strip(c[3][6]))[:20]), nontrivial=True)
+    ctx.floor("FIELDSTRIDE", 6, n, "(strided conversions in VSread/VSwrite)")
     return n
